@@ -36,4 +36,4 @@ package secondary
 //@ method (*withSecondaryError).SafeDetails
 //@   props C03 C12 C07
 //@   ensures[C03] safeSeq(result)
-//@   loop 1: invariant safeSeq(details)
+//@   loop 1: invariant[C03] safeSeq(details)
